@@ -862,10 +862,17 @@ impl Parser {
                         Some(Lexem::Comma) => {}
                         Some(Lexem::RawString(ref ordering_field)) => {
                             let actual_field = match ordering_field.parse::<usize>() {
-                                Ok(idx) => fields[idx - 1].clone(),
+                                Ok(idx) => {
+                                    if idx == 0 || idx > fields.len() {
+                                        return Err(String::from(
+                                            "Error parsing ORDER BY, column position is out of range",
+                                        ));
+                                    }
+                                    fields[idx - 1].clone()
+                                }
                                 _ => {
                                     self.drop_lexem();
-                                    self.parse_expr().unwrap().unwrap()
+                                    self.parse_expr()?.unwrap()
                                 }
                             };
                             order_by_fields.push(actual_field);
@@ -873,6 +880,11 @@ impl Parser {
                         }
                         Some(Lexem::DescendingOrder) => {
                             let cnt = order_by_directions.len();
+                            if cnt == 0 {
+                                return Err(String::from(
+                                    "Error parsing ORDER BY, DESC must follow a column",
+                                ));
+                            }
                             order_by_directions[cnt - 1] = false;
                         }
                         _ => {
